@@ -275,6 +275,7 @@ type viol struct {
 	Key    string `json:"key"`
 	Msg    string `json:"msg"`
 	Replay any    `json:"replay"`
+	Idx    int    `json:"idx"` // position of the case in its enumeration (the earliest one is reported)
 }
 
 type caseOut struct {
@@ -300,16 +301,16 @@ func runUnder(out *caseOut, what string, replay any, body func(e *vsched.Exec)) 
 		return
 	}
 	for _, p := range e.Panics {
-		out.viols = append(out.viols, viol{"panic while serving: " + stripThread(p), what + ": " + p, replay})
+		out.viols = append(out.viols, viol{Key: "panic while serving: " + stripThread(p), Msg: what + ": " + p, Replay: replay})
 	}
 	if e.Deadlock != "" {
-		out.viols = append(out.viols, viol{"deadlock while serving", what + ": " + e.Deadlock, replay})
+		out.viols = append(out.viols, viol{Key: "deadlock while serving", Msg: what + ": " + e.Deadlock, Replay: replay})
 	} else if !completed && len(e.Panics) == 0 {
 		out.harnessErr = what + ": the case body did not run to its end within the horizon"
 	}
 	for _, h := range e.HeldLocks() {
 		if strings.Contains(h, "exited=true") {
-			out.viols = append(out.viols, viol{"mutex left held by a finished request", what + ": " + h, replay})
+			out.viols = append(out.viols, viol{Key: "mutex left held by a finished request", Msg: what + ": " + h, Replay: replay})
 		}
 	}
 }
@@ -418,7 +419,7 @@ func runMatrixCase(c mcase) (out caseOut) {
 	replay := map[string]any{"part": "matrix", "state": state, "request": q}
 	where := fmt.Sprintf("state %q, request %v", state, q)
 	bad := func(key, format string, a ...any) {
-		out.viols = append(out.viols, viol{key, where + ": " + fmt.Sprintf(format, a...), replay})
+		out.viols = append(out.viols, viol{Key: key, Msg: where + ": " + fmt.Sprintf(format, a...), Replay: replay})
 	}
 	runUnder(&out, where, replay, func(e *vsched.Exec) {
 		w := newWorld()
@@ -683,7 +684,7 @@ func runIDCase(c idcase) (out caseOut) {
 	replay := map[string]any{"part": "ids", "answers": c.Answers}
 	where := fmt.Sprintf("id answers %q", c.Answers)
 	bad := func(key, format string, a ...any) {
-		out.viols = append(out.viols, viol{key, where + ": " + fmt.Sprintf(format, a...), replay})
+		out.viols = append(out.viols, viol{Key: key, Msg: where + ": " + fmt.Sprintf(format, a...), Replay: replay})
 	}
 	same := func(i int) bool { // is generated id number i (0-based) scripted to equal id i-1?
 		return i >= 1 && i-1 < len(c.Answers) && c.Answers[i-1] == 'S'
@@ -807,7 +808,7 @@ func idMaxLen(tier string) int { return 12 }
 
 func runShard(part, tier string, shard, n int, deadline time.Time) *shardOut {
 	so := &shardOut{Classes: map[string]int{}, Counts: map[string]int{}}
-	add := func(o caseOut) {
+	add := func(idx int, o caseOut) {
 		so.Cases++
 		so.Steps += o.steps
 		if o.nontrivial {
@@ -816,6 +817,7 @@ func runShard(part, tier string, shard, n int, deadline time.Time) *shardOut {
 		so.Classes[o.class]++
 		for _, v := range o.viols {
 			if so.Counts[v.Key] == 0 {
+				v.Idx = idx
 				so.Viols = append(so.Viols, v)
 			}
 			so.Counts[v.Key]++
@@ -834,7 +836,7 @@ func runShard(part, tier string, shard, n int, deadline time.Time) *shardOut {
 				so.Cap = "matrix: deadline"
 				break
 			}
-			add(runMatrixCase(c))
+			add(i, runMatrixCase(c))
 		}
 	case "ids":
 		for i, c := range idCases(idMaxLen(tier)) {
@@ -845,7 +847,7 @@ func runShard(part, tier string, shard, n int, deadline time.Time) *shardOut {
 				so.Cap = "ids: deadline"
 				break
 			}
-			add(runIDCase(c))
+			add(i, runIDCase(c))
 		}
 	}
 	return so
@@ -893,7 +895,16 @@ func runSharded(part, tier string, procs int, deadline time.Time) (*shardOut, []
 			total.Classes[k] += v
 		}
 		for _, v := range so.Viols {
-			if total.Counts[v.Key] == 0 {
+			seen := false
+			for j := range total.Viols {
+				if total.Viols[j].Key == v.Key {
+					seen = true
+					if v.Idx < total.Viols[j].Idx {
+						total.Viols[j] = v
+					}
+				}
+			}
+			if !seen {
 				total.Viols = append(total.Viols, v)
 			}
 		}
@@ -1165,15 +1176,15 @@ func scenarios(tier string) []*vx.Scenario {
 		closeRace("close/handshake-vs-close-with-live-session/preemption-bound-2", 1, true, false, 2, chess),
 		closeRace("close/handshake-vs-close-with-live-session/delay-bound-4", 1, true, false, 4, delay),
 		closeRace("close/handshake-vs-close-vs-poll/preemption-bound-1", 1, true, true, 1, chess),
-		closeRace("close/handshake-vs-close-vs-poll/delay-bound-4", 1, true, true, 4, delay),
-		closeRace("close/2-handshakes-vs-close/preemption-bound-1", 2, false, false, 1, chess),
-		closeRace("close/2-handshakes-vs-close/delay-bound-4", 2, false, false, 4, delay),
+		closeRace("close/handshake-vs-close-vs-poll/delay-bound-3", 1, true, true, 3, delay),
+		closeRace("close/2-handshakes-vs-close/preemption-bound-2", 2, false, false, 2, chess),
+		closeRace("close/2-handshakes-vs-close/delay-bound-3", 2, false, false, 3, delay),
 		collideScenario(3),
 	}
 }
 
 func extra(tier string, r *vx.Report) {
-	procs := 8
+	procs := 4
 	if f := flag.Lookup("procs"); f != nil {
 		if n, err := strconv.Atoi(f.Value.String()); err == nil && n >= 1 && n < procs {
 			procs = n
@@ -1301,6 +1312,13 @@ func main() {
 		} else if strings.HasPrefix(a, "-replay=") {
 			ownReplay(strings.TrimPrefix(a, "-replay="))
 		}
+	}
+	hasProcs := false
+	for _, a := range os.Args[1:] {
+		hasProcs = hasProcs || a == "-procs" || a == "--procs" || strings.HasPrefix(a, "-procs=") || strings.HasPrefix(a, "--procs=")
+	}
+	if !hasProcs {
+		os.Args = append(os.Args, "-procs", "8") // the explorer's default is one worker per CPU
 	}
 	vx.Main(vx.Config{
 		Property: "C17",
